@@ -167,9 +167,9 @@ def run_c06(pid, tier, t0):
                 uo = bb.UdpOrigin()
                 us = socket.socket(socket.AF_INET, socket.SOCK_DGRAM)
                 try:
-                    for _ in range(3):
+                    for _ in range(12):       # patient: a loaded machine must not turn into "upstream never seen"
                         us.sendto(b"\x00\x00\x00\x01" + socket.inet_aton("127.0.0.1") + struct.pack(">H", uo.port) + b"hello", ("127.0.0.1", rep["bind_port"]))
-                        time.sleep(0.3)
+                        time.sleep(0.5)
                         if uo.got:
                             break
                     upstream_seen = bool(uo.got)
